@@ -584,3 +584,20 @@ def _discharge(E, obs, tier, jobs, log, inproc_ms, timeout, solvers, refine):
                 if log:
                     log("  portfolio %s -> %s by %s in %.1fs %s" % (ob.id, st, kind, dt, plog))
     return stats
+
+
+def resolve_with(E, ob, extra, timeout_ms=60000):
+    """re-solve a violated obligation with extra constraints (e.g. tie-free inputs); returns input values or None"""
+    s = z3.Solver()
+    s.set("timeout", timeout_ms)
+    for a in E.assumptions[:ob.assum_n] + E.str_axioms() + list(E.refinements) + list(extra):
+        s.add(a)
+    s.add(ob.guard)
+    s.add(Not(ob.claim))
+    try:
+        r = s.check()
+    except z3.Z3Exception:
+        return None
+    if r != z3.sat:
+        return None
+    return z3_model_inputs(E, s.model(), set(E.inputs.keys()))
